@@ -428,3 +428,23 @@ Proof.
   - apply bind_ok in Hh. destruct Hh as (all1 & Ht & Hh). inversion Hh; subst.
     exists all0. split; [apply transform_cells; exact Ht|]. split; [exact Hl | exact Hrows].
 Qed.
+
+(* ---------- column NAMES: no name other than "HED" is special ---------- *)
+
+(* corollary of value_kind / categorical_kind for the BIDS timing columns: a sidecar that
+   annotates "onset" or "duration" itself is listed like any other column *)
+Definition name_onset : str := [111; 110; 115; 101; 116]%N.
+Definition name_duration : str := [100; 117; 114; 97; 116; 105; 111; 110]%N.
+
+Theorem timing_columns_listed cols sc c kv :
+  c = name_onset \/ c = name_duration ->
+  mem c cols = true -> assoc c sc = Some (JDict kv) ->
+  (forall s, assoc hed_key kv = Some (JStr s) -> memc ch_hash s = true ->
+             assoc c (transformers_of cols sc) = Some (XValue s)) /\
+  (forall entries, assoc hed_key kv = Some (JDict (str_entries entries)) ->
+             assoc c (transformers_of cols sc) = Some (XCat entries)).
+Proof.
+  intros Hc Hm Hs.
+  assert (Hh : str_eqb c hed_key = false) by (destruct Hc; subst; reflexivity).
+  split; intros; [eapply value_kind | eapply categorical_kind]; eauto.
+Qed.
